@@ -83,6 +83,28 @@ CHECKS = {
          "hash function and s2 compression trusted; times compared at the format's resolution; direct StrListEncoder.Encode (no error result) may panic as an assertion",
          "TLA+ spec Wire.tla (the format definition, TLC-checked); TLC-generated vectors replayed into pkg/objects, pkg/encoding",
          "DESIGN.md 5/C06"),
+ "C07": ("transfer", "model_checking",
+         "Transfer.tla models sender (EnqueueNextCommit / EnqueueTable / WriteObject / ClosePack) and receiver (RecvBlock / RecvTable only "
+         "with all blocks present and indices rebuilt / RecvCommit only with all parents present / Reject leaving nothing behind); TLC "
+         "explores the design (491,940 quick / 5.1M thorough states) and enumerates send scenarios (DAG fragments x block-sharing tables x "
+         "packfile limits x destination pre-populated with every closed subset) and adversarial object orders with the accepted prefix; each is "
+         "run through the real ObjectSender -> packfile bytes -> ObjectReceiver with stores compared byte for byte, rebuilt indices / profile "
+         "checked, received tables judged by TraceTable.tla and diffed against the originals; receiver-hook traces of larger random histories "
+         "are validated by TLC (TraceTransfer.tla).",
+         "packfile size limits are byte thresholds in the real runs (1, 200, 3000, 6000, default); where a packfile closes is not a verdict",
+         "TLA+ spec Transfer.tla (TLC); TLC-enumerated transfers replayed into pkg/api/utils + packfile; TLC trace validation (TraceTransfer.tla, TraceTable.tla)",
+         "DESIGN.md 5/C07"),
+ "C10": ("sync", "model_checking",
+         "Sync.tla states the ref rules of fetch / push / merge (create, leave equal, existing tag only when forced, fast-forward or forced, "
+         "else rejected with the ref unchanged and the others updated as if alone; a fast-forward merge moves the branch exactly to the other "
+         "commit; every move logged with true old / new); TLC checks RulesForward and RejectionIsLocal on the model over history pairs equal / "
+         "ahead / behind / diverged / unrelated x ref kinds x per-refspec and global force x ff / no-ff / ff-only and exports the expected refs; "
+         "every scenario is run through the real `wrgl fetch` / `wrgl push` (against the reference server) / `wrgl merge`, refs compared, "
+         "rejections must be reported, and TLC (TraceSync.tla) checks RefsForward and LogFaithful on the projected real before / after states "
+         "with ancestry computed by the specification.",
+         "the server is the harness's reference server (the real one is in another repository); real (non-ff) merges are C05's",
+         "TLA+ spec Sync.tla (TLC); TLC-enumerated scenarios replayed through the real CLI; TLC trace validation (TraceSync.tla)",
+         "DESIGN.md 5/C10"),
  "C11": ("graph", "model_checking",
          "Graph.tla defines ancestry, walks and the merge-base contract (AllowedBases) and transcribes the code's lock-step algorithm "
          "(SeekAsCoded); TLC enumerates all commit DAGs of 4 (quick) / 5 (thorough) commits x all clock assignments from {1,2,3} and exports "
